@@ -183,7 +183,7 @@ func genC02(c *Cfg, emit func([]string)) {
 		999999999999, 1000000000000, 9999999999999, 10000000000000}
 	maxLen, nWalk, nE2E := 4, 20000, 400
 	if c.Thorough() {
-		maxLen, nWalk, nE2E = 6, 600000, 6000
+		maxLen, nWalk, nE2E = 5, 600000, 6000
 	}
 	// (a) pure function, exhaustive over the symbolic alphabet
 	var rec func(prefix []string, depth int)
